@@ -40,65 +40,69 @@ func runC16_1(c *Ctx) {
 	sites := establishmentSites(sub)
 	start := p.Fn(Root, "session", "startReadAndHandle")
 	startM := p.MethodObj(Root, "session", "startReadAndHandle")
-	n := 0
-	for _, s := range sites {
-		var starts []ssa.Instruction
-		Instrs(s.fn, func(i ssa.Instruction) {
-			if IsCallTo(i, startM) {
-				starts = append(starts, i)
-				return
-			}
-			// AnywayGo(sess.startReadAndHandle): a bound-method closure of startReadAndHandle passed on
-			if call, ok := i.(ssa.CallInstruction); ok {
-				for _, a := range call.Common().Args {
-					if mc, ok := a.(*ssa.MakeClosure); ok {
-						if bf, ok := mc.Fn.(*ssa.Function); ok && bf.Synthetic != "" && bf.Object() == start.Object() {
-							starts = append(starts, i)
-						}
+	isStart := func(i ssa.Instruction) bool {
+		if IsCallTo(i, startM) {
+			return true
+		}
+		// AnywayGo(sess.startReadAndHandle): a bound-method closure of startReadAndHandle passed on
+		if call, ok := i.(ssa.CallInstruction); ok {
+			for _, a := range call.Common().Args {
+				if mc, ok := a.(*ssa.MakeClosure); ok {
+					if bf, ok := mc.Fn.(*ssa.Function); ok && bf.Synthetic != "" && bf.Object() == start.Object() {
+						return true
 					}
 				}
 			}
-		})
+		}
+		return false
+	}
+	startEf := effect{"read loop start", isStart}
+	n := 0
+	for _, s := range sites {
+		starts := p.performs(s.fn, startEf, 0)
 		if len(starts) == 0 {
 			c.Viol(s.name+" starts the read loop", p.Pos(s.fn.Pos()), "no start of the read loop found at this establishment site")
 			continue
 		}
 		for _, st := range starts {
 			n++
-			dom := false
-			for _, b := range s.okBlocks {
-				if BlockDominatesInstr(b, st) {
-					dom = true
+			c.fact("dominance")
+			c.Check(p.guardedBySites(sites, s.fn, st, 0), s.name+" read loop only after hooks", p.InstrPos(st), "dominated by the "+s.how, "the read loop is started in "+s.name+" on a path where the accept/dial hooks (authentication) have not succeeded: handlers and message hooks run for an unauthenticated connection")
+		}
+	}
+	// no other start of the read loop anywhere: every start is in a site or in a helper called only on hook-success edges
+	for _, fn := range p.ShippedFuncs() {
+		Instrs(fn, func(i ssa.Instruction) {
+			if !isStart(i) {
+				return
+			}
+			if !p.guardedBySites(sites, fn, i, 0) {
+				in := false
+				for _, s := range sites {
+					if s.fn == fn {
+						in = true
+					}
+				}
+				if !in {
+					c.Viol("read loop started in "+FnName(fn), p.InstrPos(i), "startReadAndHandle is started outside the four establishment sites (or in a helper that is not called only on their hook-success edges)")
 				}
 			}
-			c.fact("dominance")
-			c.Check(dom, s.name+" read loop only after hooks", p.InstrPos(st), "dominated by the "+s.how, "the read loop is started in "+s.name+" on a path where the accept/dial hooks (authentication) have not succeeded: handlers and message hooks run for an unauthenticated connection")
-		}
-	}
-	// no other start of the read loop anywhere
-	for _, fn := range p.ShippedFuncs() {
-		in := false
-		for _, s := range sites {
-			if s.fn == fn {
-				in = true
-			}
-		}
-		if in {
-			continue
-		}
-		for _, call := range CallsTo(fn, startM) {
-			c.Viol("read loop started in "+FnName(fn), p.InstrPos(call), "startReadAndHandle is called outside the four establishment sites")
-		}
+		})
 	}
 	for _, u := range p.funcValueUses(start) {
-		in := false
-		for _, s := range sites {
-			if s.fn == u.Parent() {
-				in = true
+		if !isStart(u) && !p.guardedBySites(sites, u.Parent(), u, 0) {
+			// a bound-method value that is not handed straight to the goroutine starter
+			ok := false
+			if mc, isMC := u.(*ssa.MakeClosure); isMC && mc.Referrers() != nil {
+				for _, r := range *mc.Referrers() {
+					if isStart(r) {
+						ok = true
+					}
+				}
 			}
-		}
-		if !in {
-			c.Viol("read loop value in "+FnName(u.Parent()), p.InstrPos(u), "startReadAndHandle escapes as a function value outside the establishment sites")
+			if !ok {
+				c.Viol("read loop value in "+FnName(u.Parent()), p.InstrPos(u), "startReadAndHandle escapes as a function value outside the establishment sites")
+			}
 		}
 	}
 	if n < 4 {
